@@ -18,6 +18,13 @@ from .sv import (F_RINT, F_ARCCOS, F_ATAN2, F_COS, F_EXP, F_LOG, F_POW, F_ROUND6
 RV = z3.RealVal
 
 
+# ASSUMED universally quantified facts about an uninterpreted symbol introduced by a library contract or a unit's
+# precondition (e.g. "every column of the eigenvector matrix has norm 1", "every particle type is in 1..K"):
+# symbol name -> callable(application term) -> list of z3 facts (the instances for that application's arguments).
+# Instantiation is per application occurring in a query, like the Σ axioms; the registering contract lists the fact as assumed.
+QFACTS = {}
+
+
 def collect_apps(formulas):
     apps = {}
     visited = set()
@@ -190,6 +197,9 @@ def instances(formulas, opts=None):
                         out.append(fact(c, *ps))
                     except Exception:  # pragma: no cover
                         pass
+    for name, fn in QFACTS.items():
+        for e in apps.get(name, {}).values():
+            out.extend(fn(e))
     # Σ instances
     sig_apps = []
     for name, d in apps.items():
